@@ -266,11 +266,11 @@ def write_replay(pid, seed, n, payload):
     return path
 
 
-def eval_family(modname, fam, cases):
+def eval_family(modname, fam, cases, with_model=True):
     """Returns (impl_obs, model_obs or None per case)."""
     impl_obs = run_impl(modname, fam, cases)
     model_obs = [None] * len(cases)
-    if fam.model_expr is not None:
+    if fam.model_expr is not None and with_model:
         idx, exprs = [], []
         for i, c in enumerate(cases):
             e = fam.model_expr(c)
@@ -423,7 +423,7 @@ def run_check(mod, tier, seed, replay=None):
         reported_unknown += 1
 
         def still_fails(c, fam=fam):
-            io, mo = eval_family(modname, fam, [c])
+            io, mo = eval_family(modname, fam, [c], with_model=False)
             f, _ = judge(fam, c, io[0], mo[0])
             return f is not None and fam.known(c, io[0], f) is None
         small = try_shrink(modname, fam, case, still_fails)
